@@ -229,6 +229,43 @@ theorem walk_infeasible_clamps (E : B3Env) (A : Mat) (b : Vec) (hA : SPD (toMat 
   have := seg_decrease (toMat E.n A) (toVec E.n b) _ _ hA α ha0 ha1 hne hopt
   linarith
 
+theorem walkScan_true (E : B3Env) (inF : ℕ → Bool) (x xF : ℕ → ℚ) (res0 : ℚ) : ∀ l : List ℚ,
+    (walkScan E inF x xF res0 l).2 = true →
+      E.resid inF (trialVal inF x xF (walkScan E inF x xF res0 l).1) < res0 := by
+  intro l
+  induction l with
+  | nil => intro h; simp [walkScan] at h
+  | cons a t ih =>
+    cases t with
+    | nil =>
+      simp only [walkScan, decide_eq_true_eq]
+      exact fun h => h
+    | cons b rest =>
+      rw [walkScan]
+      split_ifs with hc
+      · exact fun _ => hc
+      · exact ih
+
+/-- **an accepted projected step strictly decreases the objective on `F`**: when `walk_descents` returns
+`feasible = true`, the objective of the new point (restricted to `F`) is strictly below that of the old one -/
+theorem walk_feasible_decreases (E : B3Env) (A : Mat) (b : Vec) (hR : ExactResid E A b) (inF : ℕ → Bool)
+    (x xF : ℕ → ℚ) (hx : ∀ i, 0 ≤ x i) (hw : (walkDescents E inF x xF).2 = true) :
+    qf (toMat E.n A) (toVec E.n b) (restr E.n inF (trialVal inF x xF (walkDescents E inF x xF).1))
+      < qf (toMat E.n A) (toVec E.n b) (restr E.n inF x) := by
+  have h := walkScan_true E inF x xF (E.resid inF (trialVal inF x xF 0)) (walkAlphas E.n inF x xF) hw
+  have e0 : restr E.n inF (trialVal inF x xF 0) = restr E.n inF x := by
+    funext i
+    unfold restr trialVal
+    by_cases hi : inF i = true
+    · simp only [hi, if_true]
+      have : ¬ ((1 - 0) * x i + 0 * xF i < 0) := by
+        have := hx i; simp only [sub_zero, one_mul, zero_mul, add_zero, not_lt]; exact this
+      rw [if_neg this]; ring
+    · simp only [hi]; simp
+  change E.resid inF (trialVal inF x xF (walkDescents E inF x xF).1) < _ at h
+  rw [hR, hR, e0] at h
+  linarith
+
 /-! ## the `while (!feasible)` loop terminates -/
 
 /-- the passive set after the next `modify_factor` -/
